@@ -2,6 +2,7 @@
 # usage: mut.sh <PROP> <patch-file> [check args]  - apply a mutation patch in the scratch worktree /tmp/ag-main/repo,
 # run the property's quick check from a synced copy of /verif, revert.
 P=$1; PATCH=$2; shift 2
+exec 9>/tmp/ag-main.lock; flock 9   # one mutation run at a time (shared scratch worktree)
 D=/tmp/ag-main
 git -C $D/repo checkout -q -- . && git -C $D/repo checkout -q --detach $(git -C /repo rev-parse HEAD) 2>/dev/null
 rsync -a --exclude target --exclude .git --exclude evidence --exclude replays /verif/ $D/verif/
